@@ -85,3 +85,14 @@ claim("C16",
       "treatment on the same matrix object).",
       TB, "symbolic execution (CrossHair+z3) of Fitch scoring with symbolic weights and symbolic cell choices against a Sankoff DP oracle, incl. call histories",
       "DESIGN.md 3/C16")
+
+claim("C17",
+      "Bounded symbolic execution of calc_node_ages and friends with symbolic integer edge lengths and a symbolic precision (or None/False/"
+      "negative) and forcing option: if all root-to-tip sums agree within the precision the call must succeed and every age lies within the "
+      "precision of every tip distance, otherwise UltrametricityError unless disabled/forced (forced ages = max/min over children); spread "
+      "computed fork-free so z3 decides both sides of the precision for every length vector. Exactly ultrametric trees from symbolic node "
+      "heights: ages, depths, root distances, age->length round trip, lineage counts at a symbolic distance, tree length. Statistics: N-bar, "
+      "Sackin, Colless (every normalisation), B1 on every ordered shape in the bound against independent recursive definitions and under "
+      "child reversal; treeness as a cross-multiplied identity over symbolic lengths; Pybus-Harvey gamma on concrete small heights.",
+      TB + " sqrt/log/pow based constants are concrete per shape.", "symbolic execution (CrossHair+z3) of node-age computation with symbolic lengths and precision; shape-exhaustive comparison of tree statistics with independent definitions",
+      "DESIGN.md 3/C17")
